@@ -188,7 +188,10 @@ class JobControl:
     def _on_background_done(self, agent):
         if self._acquire_lock():
             try:
-                del self._background[agent.name]
+                # The name may belong to a newer job by now, started while
+                # this one was still winding down after a stop.
+                if self._background.get(agent.name) is agent:
+                    del self._background[agent.name]
             finally:
                 self._release_lock()
 
